@@ -14,10 +14,10 @@ open Rpki.Der Rpki.Chain
 (`81 len` / `82 hi lo`) or as the original code did (`02 hi lo`). -/
 def encodeVerify (attrs : Bytes) : Option Bytes :=
   let len := attrs.length
-  if len < 128 then some (0x31 :: len :: attrs)
+  if len < Rpki.Consts.encodeVerifyShort then some (0x31 :: len :: attrs)
   else if Rpki.Consts.encodeVerifyDerLength then
-    if len < 0x100 then some (0x31 :: 0x81 :: len :: attrs)
-    else if len < 0x10000 then some (0x31 :: 0x82 :: len / 256 :: len % 256 :: attrs)
+    if len < Rpki.Consts.encodeVerifyMid then some (0x31 :: 0x81 :: len % 256 :: attrs)
+    else if len < Rpki.Consts.encodeVerifyMax then some (0x31 :: 0x82 :: len / 256 % 256 :: len % 256 :: attrs)
     else none
   else if len < 0x10000 then some (0x31 :: 2 :: len / 256 :: len % 256 :: attrs)
   else none
